@@ -1384,7 +1384,7 @@ def m_arguments_new(ex, c, a, m):
     return Adt('Arguments', None, [render(ex, as_S(a[0]), d(a[1]))])
 
 
-@model(r"Arguments::<'_>::from_str")
+@model(r"Arguments::<'_>::from_str(_nonconst)?")
 def m_arguments_from_str(ex, c, a, m):
     return Adt('Arguments', None, [as_S(a[0])])
 
